@@ -41,6 +41,8 @@ htp_status_t contract_htp_urlenp_parse_partial(htp_urlenp_t *urlenp, const void 
 __CPROVER_requires(__CPROVER_is_fresh(urlenp, sizeof(*urlenp)))
 __CPROVER_requires(len <= VCAP && (_data == NULL || __CPROVER_is_fresh(_data, len)))
 __CPROVER_requires(g_fp_n == 0 && g_fp_state0 == urlenp->_state)
+/* g_fp_bj names the byte at the arbitrary witness position gj (ghost only: restricts no real state) */
+__CPROVER_requires((_data != NULL && gj < len) ==> g_fp_bj == UC(_data)[gj])
 __CPROVER_assigns(urlenp->_state, urlenp->_name, FP_LOG_ASSIGNS)
 /* an invalid parser state is refused without touching anything */
 __CPROVER_ensures(!PP_VALID0 ==> (__CPROVER_return_value == HTP_ERROR && g_fp_n == 0 && urlenp->_state == PP_S0))
@@ -57,6 +59,150 @@ __CPROVER_ensures((PP_VALID0 && gk < g_fp_n && gk != g_fp_n - 1) ==> g_fp_wit_c 
 __CPROVER_ensures((PP_VALID0 && gk < g_fp_n && gk == g_fp_n - 1) ==> (g_fp_wit_c == -1 && g_fp_wit_end == PP_L && g_fp_wit_state == urlenp->_state))
 /* configuration is not modified (also by the frame) */
 __CPROVER_ensures(urlenp->argument_separator == __CPROVER_old(urlenp->argument_separator) && urlenp->_complete == __CPROVER_old(urlenp->_complete))
+;
+
+/* ------------------------------------------------------------------------------------------- */
+/* (2) piece handler                                                                             */
+/* ------------------------------------------------------------------------------------------- */
+#define FPC_ASSIGNS g_bb_n, g_bb_app, g_bb_app_ptr, g_bb_app_len, g_bb_clr, g_bb_tostr, g_dupm_n, g_dupm_ptr, g_dupm_len, g_field, \
+    g_dupc_n, g_dupc_a, g_dupc_b, g_free_n, g_freed, g_dec_n, g_dec_a, g_dec_b, g_pairs, g_pair_name, g_pair_value, g_pair_rc
+
+/* --- stubs of the callees (replace mode).  Each one may fail where the real one allocates. ---
+ * NB: in replace mode is_fresh(return_value) ASSIGNS the return value, so it must be the first ensures clause. */
+size_t contract_c15_bb_size(const bstr_builder_t *bb)
+__CPROVER_requires(1) __CPROVER_assigns() __CPROVER_ensures(__CPROVER_return_value == g_bb_n);
+
+/* the appended range must be a readable, non-empty part of the chunk (asserted at the call site) */
+htp_status_t contract_c15_bb_append_mem(bstr_builder_t *bb, const void *data, size_t len)
+__CPROVER_requires(len > 0 && __CPROVER_r_ok(data, len) && g_bb_n <= VCAP && g_bb_app == 0)
+__CPROVER_assigns(g_bb_n, g_bb_app, g_bb_app_ptr, g_bb_app_len)
+__CPROVER_ensures(g_bb_app == 1 && g_bb_app_ptr == data && g_bb_app_len == len)
+__CPROVER_ensures((__CPROVER_return_value == HTP_OK && g_bb_n == __CPROVER_old(g_bb_n) + 1) || (__CPROVER_return_value == HTP_ERROR && g_bb_n == __CPROVER_old(g_bb_n)))
+;
+bstr *contract_c15_bb_to_str(const bstr_builder_t *bb)
+__CPROVER_requires(g_bb_tostr == 0 && g_bb_n > 0)
+__CPROVER_assigns(g_bb_tostr, g_field)
+__CPROVER_ensures(__CPROVER_return_value == NULL || __CPROVER_is_fresh(__CPROVER_return_value, sizeof(bstr)))
+__CPROVER_ensures(g_bb_tostr == 1 && g_field == __CPROVER_return_value)
+;
+void contract_c15_bb_clear(bstr_builder_t *bb)
+__CPROVER_requires(g_bb_clr == 0)
+__CPROVER_assigns(g_bb_n, g_bb_clr)
+__CPROVER_ensures(g_bb_n == 0 && g_bb_clr == 1)
+;
+bstr *contract_c15_dup_mem(const void *data, size_t len)
+__CPROVER_requires(len > 0 && __CPROVER_r_ok(data, len) && g_dupm_n == 0)
+__CPROVER_assigns(g_dupm_n, g_dupm_ptr, g_dupm_len, g_field)
+__CPROVER_ensures(__CPROVER_return_value == NULL || __CPROVER_is_fresh(__CPROVER_return_value, sizeof(bstr)))
+__CPROVER_ensures(g_dupm_n == 1 && g_dupm_ptr == data && g_dupm_len == len && g_field == __CPROVER_return_value)
+;
+/* only the empty string is ever duplicated */
+bstr *contract_c15_dup_c(const char *cstr)
+__CPROVER_requires(cstr != NULL && cstr[0] == 0 && g_dupc_n <= 1)
+__CPROVER_assigns(g_dupc_n, g_dupc_a, g_dupc_b)
+__CPROVER_ensures(__CPROVER_return_value == NULL || __CPROVER_is_fresh(__CPROVER_return_value, sizeof(bstr)))
+__CPROVER_ensures(g_dupc_n == __CPROVER_old(g_dupc_n) + 1)
+__CPROVER_ensures(__CPROVER_old(g_dupc_n) == 0 ? (g_dupc_a == __CPROVER_return_value && g_dupc_b == __CPROVER_old(g_dupc_b))
+                                               : (g_dupc_b == __CPROVER_return_value && g_dupc_a == __CPROVER_old(g_dupc_a)))
+;
+/* bstr_free(NULL) is a no-op; a second free in one call is refused (g_free_n == 0 is asserted) */
+void contract_c15_bstr_free(bstr *b)
+__CPROVER_requires(b == NULL || g_free_n == 0)
+__CPROVER_assigns(g_free_n, g_freed)
+__CPROVER_ensures(b == NULL ? (g_free_n == __CPROVER_old(g_free_n) && g_freed == __CPROVER_old(g_freed)) : (g_free_n == 1 && g_freed == b))
+;
+/* decoder (property C12): abstracted to "called on this string"; contents of bstrs are not modelled here */
+htp_status_t contract_c15_decode(htp_tx_t *tx, bstr *input)
+__CPROVER_requires(input != NULL && g_dec_n <= 1)
+__CPROVER_assigns(g_dec_n, g_dec_a, g_dec_b)
+__CPROVER_ensures(g_dec_n == __CPROVER_old(g_dec_n) + 1)
+__CPROVER_ensures(__CPROVER_old(g_dec_n) == 0 ? (g_dec_a == input && g_dec_b == __CPROVER_old(g_dec_b)) : (g_dec_b == input && g_dec_a == __CPROVER_old(g_dec_a)))
+;
+/* table insert: may fail (the real one reallocates); key and element must be real strings */
+htp_status_t contract_c15_table_addn(htp_table_t *table, const bstr *key, const void *element)
+__CPROVER_requires(key != NULL && element != NULL && g_pairs == 0)
+__CPROVER_assigns(g_pairs, g_pair_name, g_pair_value, g_pair_rc)
+__CPROVER_ensures(g_pairs == 1 && g_pair_name == key && g_pair_value == element && g_pair_rc == __CPROVER_return_value)
+__CPROVER_ensures(__CPROVER_return_value == HTP_OK || __CPROVER_return_value == HTP_ERROR)
+;
+
+/* --- vocabulary of the transition table (entry values) --- */
+#define FP_S    (__CPROVER_old(urlenp->_state))
+#define FP_K    (__CPROVER_old(urlenp->_complete) != 0)                  /* finalize() was called */
+#define FP_N0   ((const void *) __CPROVER_old(urlenp->_name))            /* key remembered from an earlier piece */
+#define FP_B    (__CPROVER_old(g_bb_n))                                  /* pieces buffered so far */
+#define FP_SEP  (urlenp->argument_separator)
+#define FP_E    (data == NULL || endpos == startpos)                     /* this piece is empty */
+#define FP_FIN  (last_char != -1 || FP_K)                                /* the field is finished */
+#define FP_FIELD_OOM (FP_FIN && (FP_B > 0 || !FP_E) && g_field == NULL)  /* assembling the field failed */
+#define FP_NOW  ((const void *) urlenp->_name)
+/* EMISSION RULE (property): a pair is reported exactly for a finished value, for a key finished by the
+ * separator (even empty), and for a final NON-EMPTY key; a final empty piece is dropped */
+#define FP_EMIT (FP_FIN && (FP_S == C15_VALUE || last_char == FP_SEP || (FP_K && g_field != NULL)))
+#define FP_ALLOC_OK (!(g_dupc_n >= 1 && g_dupc_a == NULL) && !(g_dupc_n >= 2 && g_dupc_b == NULL))
+#define FP_NEED ((size_t) (FP_S == C15_KEY ? (g_field == NULL ? 2 : 1) : ((FP_N0 == NULL ? 1 : 0) + (g_field == NULL ? 1 : 0))))
+#define FP_NAME  (FP_S == C15_KEY ? (g_field != NULL ? g_field : g_dupc_a) : (FP_N0 != NULL ? FP_N0 : g_dupc_a))
+#define FP_VALUE (FP_S == C15_KEY ? (g_field != NULL ? g_dupc_a : g_dupc_b) : (g_field != NULL ? g_field : (FP_N0 != NULL ? g_dupc_a : g_dupc_b)))
+/* ownership: every string is, at exit, in exactly one place */
+#ifdef C15_STRICT_OOM
+#define FP_ADOPTED (g_pairs == 1 && g_pair_rc == HTP_OK)   /* a refused insert adopts nothing */
+#else
+#define FP_ADOPTED (g_pairs == 1)
+#endif
+#define FP_OWN(x) (((FP_ADOPTED && (g_pair_name == (x) || g_pair_value == (x))) ? 1 : 0) + (FP_NOW == (x) ? 1 : 0) + ((g_free_n == 1 && g_freed == (x)) ? 1 : 0))
+
+void contract_htp_urlenp_add_field_piece(htp_urlenp_t *urlenp, const unsigned char *data, size_t startpos, size_t endpos, int last_char)
+__CPROVER_requires(__CPROVER_is_fresh(urlenp, sizeof(*urlenp)))
+__CPROVER_requires(urlenp->_state == C15_KEY || urlenp->_state == C15_VALUE)
+__CPROVER_requires(urlenp->_name == NULL || __CPROVER_is_fresh(urlenp->_name, sizeof(bstr)))
+/* parser invariant: a remembered key exists only while its value is being scanned */
+__CPROVER_requires(urlenp->_state == C15_KEY ==> urlenp->_name == NULL)
+/* the piece is a range of the chunk (what unit htp_urlenp_parse_partial proves about every call) */
+__CPROVER_requires(startpos <= endpos && endpos <= VCAP && (data == NULL ? endpos == 0 : __CPROVER_is_fresh(data, endpos)))
+__CPROVER_requires(last_char >= -1 && last_char <= 255)
+/* after finalize() the only call is (NULL, 0, 0, -1) */
+__CPROVER_requires(urlenp->_complete == 0 || (urlenp->_complete == 1 && data == NULL && last_char == -1))
+__CPROVER_requires(g_bb_n <= VCAP && g_bb_app == 0 && g_bb_clr == 0 && g_bb_tostr == 0 && g_dupm_n == 0 && g_field == NULL && g_dupc_n == 0 && g_dupc_a == NULL &&
+                   g_dupc_b == NULL && g_free_n == 0 && g_freed == NULL && g_dec_n == 0 && g_pairs == 0)
+/* FRAME: of the parser object only _name is written (not _state, not the configuration) */
+__CPROVER_assigns(urlenp->_name, FPC_ASSIGNS)
+/* (A) field not finished: the piece is buffered if non-empty, nothing else happens */
+__CPROVER_ensures(!FP_FIN ==> (g_pairs == 0 && FP_NOW == FP_N0 && g_dupm_n == 0 && g_bb_tostr == 0 && g_dupc_n == 0 && g_free_n == 0 && g_dec_n == 0 && g_bb_clr == 0 &&
+    (FP_E ? (g_bb_app == 0 && g_bb_n == FP_B)
+          : (g_bb_app == 1 && g_bb_app_ptr == data + startpos && g_bb_app_len == endpos - startpos && (g_bb_n == FP_B || g_bb_n == FP_B + 1)))))
+/* (B) field finished: assembled from the buffered pieces + this piece, or from this piece alone; builder emptied */
+__CPROVER_ensures((FP_FIN && FP_B > 0) ==> (g_bb_tostr == 1 && g_dupm_n == 0 &&
+    (FP_E ? g_bb_app == 0 : (g_bb_app == 1 && g_bb_app_ptr == data + startpos && g_bb_app_len == endpos - startpos)) &&
+    (g_field != NULL ? (g_bb_clr == 1 && g_bb_n == 0) : g_bb_clr == 0)))
+__CPROVER_ensures((FP_FIN && FP_B == 0) ==> (g_bb_tostr == 0 && g_bb_app == 0 && g_bb_clr == 0 && g_bb_n == 0 &&
+    (FP_E ? (g_dupm_n == 0 && g_field == NULL) : (g_dupm_n == 1 && g_dupm_ptr == data + startpos && g_dupm_len == endpos - startpos))))
+/* (C) assembling failed: nothing else happens */
+__CPROVER_ensures(FP_FIELD_OOM ==> (g_pairs == 0 && g_dupc_n == 0 && g_free_n == 0 && g_dec_n == 0 && FP_NOW == FP_N0))
+/* (D) emission rule */
+__CPROVER_ensures(!FP_FIELD_OOM ==> g_pairs == ((FP_EMIT && FP_ALLOC_OK) ? (size_t) 1 : (size_t) 0))
+__CPROVER_ensures((!FP_FIELD_OOM && FP_EMIT) ==> (g_dupc_n <= FP_NEED && (g_pairs == 1 ==> g_dupc_n == FP_NEED)))
+__CPROVER_ensures((!FP_FIELD_OOM && !FP_EMIT) ==> (g_dupc_n == 0 && g_free_n == 0 && g_dec_n == 0))
+/* (E) the pair: name = the key (this field, or the remembered one), value = this field or ""; distinct strings;
+ *     decoded after the split, name first, iff configured */
+__CPROVER_ensures(g_pairs == 1 ==> (g_pair_name == FP_NAME && g_pair_value == FP_VALUE && g_pair_name != NULL && g_pair_value != NULL && g_pair_name != g_pair_value))
+__CPROVER_ensures(g_pairs == 1 ==> (g_dec_n == (size_t) (urlenp->decode_url_encoding ? (FP_S == C15_KEY ? 1 : 2) : 0) &&
+    (g_dec_n >= 1 ==> g_dec_a == g_pair_name) && (g_dec_n == 2 ==> g_dec_b == g_pair_value)))
+__CPROVER_ensures(g_pairs == 0 ==> g_dec_n == 0)
+/* (F) remembered key afterwards: only a key finished by '=' is remembered */
+__CPROVER_ensures((FP_FIN && !FP_FIELD_OOM) ==> FP_NOW == ((FP_S == C15_KEY && !FP_K && last_char != FP_SEP) ? g_field : NULL))
+/* (G) ownership: this field, both "" strings and the remembered key each end up in exactly one place
+ *     (adopted by the table, remembered in _name, or freed once): no leak, no double free */
+__CPROVER_ensures(g_free_n <= 1)
+__CPROVER_ensures(g_field != NULL ==> FP_OWN(g_field) == 1)
+__CPROVER_ensures((g_dupc_n >= 1 && g_dupc_a != NULL) ==> FP_OWN(g_dupc_a) == 1)
+__CPROVER_ensures((g_dupc_n >= 2 && g_dupc_b != NULL) ==> FP_OWN(g_dupc_b) == 1)
+__CPROVER_ensures(FP_N0 != NULL ==> FP_OWN(FP_N0) == 1)
+#ifdef C15_STRICT_OOM
+/* (H) the parser invariant holds again in the state the scanner moves to */
+__CPROVER_ensures(((last_char == -1 ? FP_S : C15_NEXT(FP_SEP, last_char)) == C15_KEY) ==> urlenp->_name == NULL)
+#else
+__CPROVER_ensures((!FP_FIELD_OOM && (last_char == -1 ? FP_S : C15_NEXT(FP_SEP, last_char)) == C15_KEY) ==> urlenp->_name == NULL)
+#endif
 ;
 
 #endif
